@@ -7,6 +7,7 @@ NOTE_COMMON=("Bounded: ranks/sizes/argument ranges as listed in evidence.bounds;
   "(rounding/overflow outside the claim); math.* and gonum samplers are contract stubs; trusted: go/ssa lowering, the executor's "
   "semantics for the SSA instructions met (validated by replaying sampled path models natively), z3 4.8.12, the reference models in /verif/harness.")
 checks={
+ "C02":("Each of the 33 differentiable ops is applied once with solver-chosen shape/arguments/tracked subset, an arbitrary symbolic upstream weighting is back-propagated through it, and every gradient element is proved finite and equal to an independently written VJP for all real operand values in the differentiability domain.","3 C02"),
  "C03":("Every element-wise op / comparison / implicit-broadcast arithmetic path within the bounds is executed symbolically; each output element is proved equal to the scalar function of the NumPy-mapped operand elements for all real inputs.","3 C03"),
  "C04":("MatMul/Dot/Transpose executed symbolically for every solver-chosen shape pair in the bounds; each output element proved equal to the explicit sum of products; A.I=A and (AB)^T=B^T A^T proved as polynomial identities.","3 C04"),
  "C05":("All seven reductions (full and along every dim) executed symbolically for every shape in the bounds; extrema by bound-and-attained, Var/Std/mean by real-arithmetic identity.","3 C05"),
